@@ -84,6 +84,15 @@ theorem goodFrom_sum (kf : KF) (pl pc k0 : Nat) : ∀ (items : List Item) (start
     · intro hc
       rw [h2 hc, i2 hc]
 
+theorem goodFrom_getElem (kf : KF) (pl pc k0 : Nat) : ∀ (items : List Item) (start : Nat), GoodFrom kf pl pc k0 start items →
+    ∀ i (h : i < items.length), GoodLen kf pl pc k0 (start + i) items[i]
+  | [], _, _, i, h => by simp at h
+  | it :: r, start, hg, 0, _ => by simpa using hg.1
+  | it :: r, start, hg, i + 1, h => by
+    have := goodFrom_getElem kf pl pc k0 r (start + 1) hg.2 i (by simpa using h)
+    rw [show start + (i + 1) = start + 1 + i by omega]
+    simpa using this
+
 /-- at most one item of an ascending list has a given key -/
 theorem filter_key_le_one (k0 : Nat) : ∀ (items : List Item), SortedK (items.map (·.key)) →
     (items.filter (fun it => it.key == k0)).length ≤ 1 := by
